@@ -41,6 +41,9 @@ def run_all(mir, syn, repo, tier, props):
     ctx = Ctx(prog, synf, repo, tier)
     ctx.stats['functions'] = len(prog.fns)
     ctx.stats['call_edges'] = sum(len(v) for v in prog.callgraph().values())
+    ctx.stats['normalised'] = {'helpers_inlined': ['%s -> %s%s' % (h, c, ' (threaded through ?)' if t else '') for h, c, t in getattr(prog, 'inlined', [])],
+                               'aggregates_split': ['%s in %s' % (n, f) for f, n, a in getattr(prog, 'sroa', [])],
+                               'renamed_by_role': ['%s = %s' % (a, r) for a, r in getattr(prog, 'renamed', [])]}
     for name, serves in MODULES:
         # every module runs on every request: obligations are tagged with all the properties they are a necessary condition of,
         # which is not limited to the module's nominal list (and some modules use others' obligations as supporting facts)
